@@ -335,10 +335,20 @@ def run(F, rep, tier):
                 if ty in ('num::BigInt', 'f64', 'num_bigint::BigInt'):
                     continue
                 perp.setdefault((C.fn_key(p_), ty), []).append(c)
+    paths7 = {C.fn_key(p_): p_ for p_ in F.bodies_raw if '::promoted' not in p_}
+
+    def spare7(g, ty_):
+        gk = C.fn_key(g)
+        e_ = [e for e in MACHINE_PARSE if re.search(e[0], gk) and e[1] == ty_]
+        if not e_:
+            return None
+        return e_[0][2] - len(perp.get((gk, ty_), []))
     for (fk, ty), lst in sorted(perp.items()):
         ent = [e for e in MACHINE_PARSE if re.search(e[0], fk) and e[1] == ty]
         if ent and len(lst) <= ent[0][2]:
             rep.ok('R16.7', '%s parse::<%s>' % (fk, ty), 'reviewed: ' + ent[0][3])
+        elif not ent and fk in paths7 and C.moved_from_reviewed(paths7[fk], len(lst), lambda g, ty_=ty: spare7(g, ty_)):
+            rep.ok('R16.7', '%s parse::<%s> (moved)' % (fk, ty), 'helper reached only from the reviewed function, which lost the site')
         else:
             rep.viol('R16.7', '%s|parse|%s' % (fk, ty), '%s parses text into the machine type %s: digits beyond its range are rejected or, with a float fallback, silently rounded - number(str(n)) == n must hold for integers of any size' % (fk, ty), lst[0].loc())
     rep.floor('R16.7', 'text->number parse sites', npar, 12)
